@@ -42,10 +42,11 @@ Proof.
   set (T := existsb (fun h0 => s_eqb (lower_s (fst h0)) n_te) hs).
   assert (HT : s_eqb n n_te = true -> T = true).
   { intros ET. unfold T. apply existsb_exists. exists h. split; [exact Hin|exact ET]. }
-  assert (M : forall b : bool, mem n (if b then [n_cl; n_te] else []) = b && (s_eqb n n_cl || s_eqb n n_te)).
-  { intros [|]; cbn [mem existsb andb]; [rewrite orb_false_r; reflexivity|reflexivity]. }
-  rewrite M. clearbody L T.
-  destruct (s_eqb n n_te) eqn:ET; [rewrite (HT eq_refl)|];
+  assert (M : mem n (if T then n_cl :: (if dechunked then [n_te] else []) else []) =
+              T && (s_eqb n n_cl || (dechunked && s_eqb n n_te))).
+  { destruct T, dechunked; cbn [mem existsb andb orb]; rewrite ?orb_false_r; reflexivity. }
+  rewrite M. clearbody L.
+  destruct (s_eqb n n_te) eqn:ET; [rewrite (HT eq_refl)|]; clearbody T;
     destruct (s_eqb n n_connection), (mem n always_dropped), L, (s_eqb n n_cl), dechunked; try reflexivity;
     destruct T; reflexivity.
 Qed.
